@@ -43,7 +43,7 @@ theorem rltForward_ok (dt : Nat) (fast : Bool) (b t : List Nat) (dstLen : Nat)
     (hdst : rltMaxEncodedLen b.length ≤ dstLen) (hne : b ≠ [])
     (h : rltForward dt fast b dstLen = .ok t) :
     16 ≤ b.length ∧ ∃ esc prev rest, esc < 256 ∧ b = prev :: rest ∧
-      fwdLoop b.toArray dstLen esc b.length 1 0 prev
+      fwdLoop b.toArray (rltMaxEncodedLen b.length) esc b.length 1 0 prev
         ((#[] : Array Nat) ++ (esc :: prev :: (if prev = esc then [0] else []))) = .ok t := by
   unfold rltForward at h
   have hlen : b.length ≠ 0 := by simpa using hne
@@ -64,7 +64,7 @@ theorem rltForward_ok (dt : Nat) (fast : Bool) (b t : List Nat) (dstLen : Nat)
         match b, hne with
         | prev :: rest, _ =>
           simp only [List.getElem?_toArray, List.getElem?_cons_zero, List.size_toArray] at h
-          rcases wr_cases dstLen #[] (esc :: prev :: (if prev = esc then [0] else [])) with h4 | ⟨e, h4⟩
+          rcases wr_cases (rltMaxEncodedLen (prev :: rest).length) #[] (esc :: prev :: (if prev = esc then [0] else [])) with h4 | ⟨e, h4⟩
           · rw [h4, Out.bind_ok] at h
             exact ⟨esc, prev, rest, chooseEscape_lt _ _ _ _ hesc, rfl, h⟩
           · rw [h4] at h; simp at h
@@ -90,7 +90,7 @@ theorem rlt_roundtrip (dt : Nat) (fast : Bool) (b t : List Nat) (dstLen : Nat) (
     have key : ∀ n, b.length ≤ n → ∃ tail, t = (esc :: prev :: (if prev = esc then [0] else [])) ++ tail ∧
         t.length < b.length ∧ (∀ y ∈ tail, y < 256) ∧ decL n esc tail (b.take 1) = .ok b := by
       intro n hn
-      obtain ⟨tail, t1, t2, t3, t4⟩ := fwdLoop_spec b hb n esc dstLen hn he b.length 1 0 prev _ t hl
+      obtain ⟨tail, t1, t2, t3, t4⟩ := fwdLoop_spec b hb n esc (rltMaxEncodedLen b.length) hn he b.length 1 0 prev _ t hl
         (by omega) hp (by omega) (by simp) (by intro j h1 h2; omega)
       exact ⟨tail, by simpa using t1, t2, t3, by simpa using t4⟩
     obtain ⟨tail0, t1, t2, t3, _⟩ := key b.length (Nat.le_refl _)
@@ -122,7 +122,7 @@ theorem rlt_shorter (dt : Nat) (fast : Bool) (b t : List Nat) (dstLen : Nat) (hb
     t.length < b.length := by
   obtain ⟨h16, esc, prev, rest, he, hbeq, hl⟩ := rltForward_ok dt fast b t dstLen hdst hne h
   have hp : prev < 256 := hb prev (by rw [hbeq]; simp)
-  obtain ⟨tail, _, t2, _, _⟩ := fwdLoop_spec b hb b.length esc dstLen (Nat.le_refl _) he b.length 1 0 prev _ t hl
+  obtain ⟨tail, _, t2, _, _⟩ := fwdLoop_spec b hb b.length esc (rltMaxEncodedLen b.length) (Nat.le_refl _) he b.length 1 0 prev _ t hl
     (by omega) hp (by omega) (by simp) (by intro j h1 h2; omega)
   exact t2
 
@@ -148,6 +148,6 @@ theorem rltForward_ne_fault (dt : Nat) (fast : Bool) (b : List Nat) (dstLen : Na
             rw [get_toArray b 0 (by omega)] at h
             simp only [List.size_toArray] at h
             rw [wr_ok _ _ _ (by by_cases hp : b[0] = esc <;> simp [hp] <;> omega), Out.bind_ok] at h
-            exact fwdLoop_ne_fault b esc dstLen _ 1 0 _ _ e (by omega) (by omega) h
+            exact fwdLoop_ne_fault b esc (rltMaxEncodedLen b.length) _ 1 0 _ _ e (by omega) (by omega) h
 
 end Kanzi.RLT
